@@ -53,6 +53,7 @@ func genC19(rt *rapid.T) *Request {
 	rq.HTTP = rapid.Bool().Draw(rt, "http")
 	if rq.HTTP {
 		p.NumStyle = oneOf(rt, "num_style", "", "", "zeros", "plus")
+		p.Repeat = oneOf(rt, "repeat", []string(nil), nil, nil, []string{"max-ttl", "port"}, []string{"traceroute-queries", "e2e-queries", "protocol", "tcp-method", "ipv6"})
 	}
 	form := oneOf(rt, "target_form", "v4", "v4", "v6", "v6br", "v4port", "v6brport", "name", "nameport")
 	sackLike := strings.TrimSpace(strings.ToLower(p.Protocol)) == "tcp" && (p.TCPMethod == "sack" || p.TCPMethod == "prefer_sack")
